@@ -220,7 +220,7 @@ def gen_case(rng, tier):
         elif r < 0.58:
             ops.append(['readline'])
         elif r < 0.62:
-            ops.append(['readlines'])
+            ops.append(['readlines'] if rng.random() < 0.8 else ['readlines', rng.choice([-1, 0])])
         elif r < 0.68:
             ops.append(['next'] if rng.random() < 0.7 else ['iternext'])
         elif r < 0.71:
@@ -393,6 +393,8 @@ def _do(f, op, text, ref_len):
         if name == 'readline':
             return ('ok', f.readline())
         if name == 'readlines':
+            if len(op) > 1:
+                return ('ok', f.readlines(op[1]))       # a hint <= 0 means "no limit", like no hint at all
             return ('ok', f.readlines())
         if name == 'next':
             try:
